@@ -5,10 +5,10 @@ id=$1; wt=${2:-/tmp/seed-$1}; S=$wt/SEED; log=/tmp/confirm-$id.log
 exec >$log 2>&1
 set -x
 cd $wt || exit 9
-git checkout -q -- . ; git clean -fdq -e SEED -e _build
+git reset -q --hard; git clean -fdq -e SEED -e _build
 git checkout -q --detach main || exit 9
 # apply the source patch (hunks already present in HEAD are skipped)
-git apply --3way $S/patch.diff 2>/dev/null || git apply $S/patch.diff || { for f in $(grep '^+++ b/' $S/patch.diff | sed 's|+++ b/||'); do git apply --include="$f" $S/patch.diff || true; done; }
+git apply $S/patch.diff 2>/dev/null || { for f in $(grep '^+++ b/' $S/patch.diff | sed 's|+++ b/||'); do git apply --include="$f" $S/patch.diff || true; done; }
 git diff --stat
 git diff > /tmp/seed-$id.cur.diff
 [ -s /tmp/seed-$id.cur.diff ] || { echo "RESULT: patch does not apply"; exit 3; }
